@@ -290,6 +290,51 @@ def missing_lock_stress(ctx):
                                {'kind': 'stress', 'how': 'rm .ergo/lock; start 8 `ergo claim` processes at once', 'winners': bad}))
 
 
+def missing_lock_schedule(ctx):
+    """The same question as a SCHEDULE (deterministic): two claimers both find .ergo/lock missing (parked between the
+    Stat and the creation), the first then goes on into its critical section and is parked before its append, the second
+    is released: it must end in `lock busy` (or wait its turn) — never be handed the task the first is about to take."""
+    import sched
+    st = Store()
+    try:
+        ids = []
+        for k in range(3):
+            rc, out, _ = st.run(['--json', 'new', 'task'], stdin=json.dumps({'title': 't%d' % k}).encode())
+            ids.append(json.loads(out)['id'])
+        os.remove(os.path.join(st.ergodir, 'lock'))
+        ctl = sched.Controller(st)
+        try:
+            a = ctl.launch('ca', {'k': 'claim'}, ['--agent', 'first', '--json', 'claim'], None, 'ensure.create,append.before')
+            b = ctl.launch('cb', {'k': 'claim'}, ['--agent', 'second', '--json', 'claim'], None, 'ensure.create,append.before')
+            reached = (a.at, b.at)
+            ctl.release(a)                      # a: creates the lock file, locks, loads, parks before its append
+            a_in_section = a.at
+            while b.at is not None:             # b: runs to completion (lock busy expected)
+                ctl.release(b)
+            while a.at is not None:
+                ctl.release(a)
+            won = {}
+            for name, p in (('first', a), ('second', b)):
+                if p.rc == 0:
+                    try:
+                        v = json.loads(p.out)
+                        if v.get('status') != 'no_ready':
+                            won.setdefault(v['id'], []).append(name)
+                    except Exception:
+                        pass
+            ctx.cov['missing_lock_schedule'] = {'both_saw_lock_missing_at': list(reached), 'first_parked_at': a_in_section, 'rc': [a.rc, b.rc]}
+            dbl = {i: w for i, w in won.items() if len(w) > 1}
+            if dbl:
+                ctx.violations.append(('monitor', 'with the lock file missing, one task was handed to two claimers whose critical sections overlapped: %s' % dbl,
+                                       {'kind': 'schedule', 'commands': ['rm .ergo/lock', 'claim (first) parked at ensure.create', 'claim (second) parked at ensure.create',
+                                                                         'first released up to append.before', 'second released to completion', 'first released'],
+                                        'winners': dbl, 'rc': [a.rc, b.rc]}))
+        finally:
+            ctl.close()
+    finally:
+        st.close()
+
+
 def mon_C01_claimers_only(info):
     """claimers + compaction only: nobody puts a task back to todo, so no id may be won twice and every
     winner must still hold its task at the end."""
@@ -546,6 +591,7 @@ def check_C01(ctx):
     # claimers racing with somebody finishing / cancelling the oldest ready task
     sched_check(ctx, n // 2, {'nwriters': 2, 'nreaders': 0, 'claimers': True, 'pre_steps': 10, 'fixed': ['finish', 'finish']}, mon_C01_finish)
     missing_lock_stress(ctx)
+    missing_lock_schedule(ctx)
     legacy_claim_races(ctx)
     # claimers racing with a log rewrite (compact) on a log with squeezable history
     sched_check(ctx, n // 2, {'nwriters': 3, 'nreaders': 0, 'claimers': True, 'pre_steps': 30, 'fixed': ['compact'],
